@@ -162,6 +162,8 @@ def run_property(prop, tier='quick', replay=None):
 
     # ------------------------------------------------------------------ deductive tier
     from . import deductive as D
+    if tier == 'thorough':
+        os.environ.setdefault('PV_CROSSCHECK', '1')      # every z3 proof is re-posed to cvc5 (pv/vc/solver.py)
     reports = []
     crash = None
     try:
